@@ -224,7 +224,9 @@ int nv_clock_gettime(clockid_t, struct timespec* ts)
 }
 void nv_yield(const char* kind, const volatile void* p)
 {
-  pthread_mutex_lock(&G); th[self].akind = kind; point(OP_ATOMIC, (void*)p); pthread_mutex_unlock(&G);
+  pthread_mutex_lock(&G); th[self].akind = kind; point(OP_ATOMIC, (void*)p);
+  if((kind[0] == 'r' && kind[1] == 'd') || (kind[0] == 'w' && kind[1] == 'r')) out(kind, (const void*)p, 0); // source hook at a plain access
+  pthread_mutex_unlock(&G);
 }
 void nv_result(const volatile void* p, unsigned long long value)
 {
